@@ -12,7 +12,9 @@
 package main
 
 import (
+	"bytes"
 	"flag"
+	"io"
 	"fmt"
 	"reflect"
 	"sort"
@@ -24,6 +26,11 @@ import (
 )
 
 const casesHeader = "From Coq Require Import List NArith ZArith.\nFrom Verif Require Import Base.Outcome Wire.Item C19.Spec C19.Model C19.Corr.\nImport ListNotations."
+
+// plainReader hides every method of the wrapped reader but Read
+type plainReader struct{ r io.Reader }
+
+func (p plainReader) Read(b []byte) (int, error) { return p.r.Read(b) }
 
 // ---- items ----
 
@@ -213,6 +220,9 @@ func coqVal(v reflect.Value) string {
 		if v.IsNil() {
 			return "(VIface None)"
 		}
+		if v.Elem().Kind() == reflect.Struct {
+			return "(VIface (Some (VDyn " + coqType(v.Elem().Type()) + " " + coqVal(v.Elem()) + ")))"
+		}
 		return "(VIface (Some " + coqVal(v.Elem()) + "))"
 	case reflect.Slice:
 		if v.IsNil() {
@@ -246,6 +256,20 @@ func coqVal(v reflect.Value) string {
 
 var keyPool = []string{"a", "b", "c"}
 
+// struct types an interface{} destination may hold BY VALUE (kInterface copies the held value
+// into an addressable temporary and decodes into it)
+var heldTypes = []reflect.Type{
+	reflect.TypeOf(struct {
+		X, Y int
+		Name string
+	}{}),
+	reflect.TypeOf(struct {
+		A int
+		P *int
+		L []int
+	}{}),
+}
+
 func fill(r *vh.Rng, v reflect.Value, depth int) {
 	t := v.Type()
 	switch t.Kind() {
@@ -258,11 +282,15 @@ func fill(r *vh.Rng, v reflect.Value, depth int) {
 			v.SetString(string(rune('p' + r.Intn(5))))
 		}
 	case reflect.Interface:
-		switch r.Intn(3) {
+		switch r.Intn(4) {
 		case 0:
 			v.Set(reflect.ValueOf(int64(-1 - r.Intn(50))))
 		case 1:
 			v.Set(reflect.ValueOf("i" + string(rune('a'+r.Intn(3)))))
+		case 2:
+			h := reflect.New(heldTypes[r.Intn(len(heldTypes))]).Elem()
+			fill(r, h, depth+1)
+			v.Set(h)
 		}
 	case reflect.Ptr:
 		if r.Chance(2, 3) {
@@ -274,12 +302,18 @@ func fill(r *vh.Rng, v reflect.Value, depth int) {
 		if r.Chance(1, 4) {
 			return
 		}
+		// len <= cap, and the spare capacity is POPULATED (a reused buffer cut back to [:n]):
+		// elements at index >= len hold no prior value, whatever sits in the backing array
 		n := r.Intn(4)
-		s := reflect.MakeSlice(t, n, n+r.Intn(3))
-		for i := 0; i < n; i++ {
+		spare := r.Intn(3)
+		s := reflect.MakeSlice(t, n+spare, n+spare)
+		for i := 0; i < n+spare; i++ {
 			fill(r, s.Index(i), depth+1)
+			if i >= n {
+				fillNonZero(r, s.Index(i))
+			}
 		}
-		v.Set(s)
+		v.Set(s.Slice(0, n))
 	case reflect.Map:
 		if r.Chance(1, 4) {
 			return
@@ -300,8 +334,54 @@ func fill(r *vh.Rng, v reflect.Value, depth int) {
 	}
 }
 
+// fillNonZero makes sure a spare-capacity element is visibly not the zero value
+func fillNonZero(r *vh.Rng, v reflect.Value) {
+	switch v.Kind() {
+	case reflect.Int:
+		if v.Int() == 0 {
+			v.SetInt(int64(60 + r.Intn(30)))
+		}
+	case reflect.String:
+		if v.String() == "" {
+			v.SetString("stale")
+		}
+	case reflect.Ptr:
+		if v.IsNil() {
+			p := reflect.New(v.Type().Elem())
+			fillNonZero(r, p.Elem())
+			v.Set(p)
+		} else {
+			fillNonZero(r, v.Elem())
+		}
+	case reflect.Struct:
+		for i := 0; i < v.NumField(); i++ {
+			fillNonZero(r, v.Field(i))
+		}
+	case reflect.Map:
+		if v.Len() == 0 {
+			m := reflect.MakeMap(v.Type())
+			e := reflect.New(v.Type().Elem()).Elem()
+			fillNonZero(r, e)
+			m.SetMapIndex(reflect.ValueOf("b"), e)
+			v.Set(m)
+		}
+	case reflect.Interface:
+		if v.IsNil() && v.Type().NumMethod() == 0 {
+			v.Set(reflect.ValueOf(int64(-77)))
+		}
+	}
+}
+
 // randItem draws a stream for a destination of type t; nil can appear at every position.
-func randItem(r *vh.Rng, t reflect.Type, nilProb int) *item {
+func randItem(r *vh.Rng, t reflect.Type, cur reflect.Value, nilProb int) *item {
+	sub := func(k func() reflect.Value) (out reflect.Value) {
+		defer func() { recover() }()
+		if cur.IsValid() {
+			out = k()
+		}
+		return
+	}
+	_ = sub
 	if r.Chance(1, nilProb) {
 		return &item{kind: "nil"}
 	}
@@ -314,17 +394,25 @@ func randItem(r *vh.Rng, t reflect.Type, nilProb int) *item {
 	case reflect.String:
 		return &item{kind: "str", s: string(rune('u' + r.Intn(5)))}
 	case reflect.Interface:
+		if cur.IsValid() && !cur.IsNil() && cur.Elem().Kind() == reflect.Struct && r.Chance(3, 4) {
+			// the interface holds a struct by value: a (partial) stream for that struct
+			return randItem(r, cur.Elem().Type(), cur.Elem(), nilProb)
+		}
 		if r.Bool() {
 			return &item{kind: "int", z: int64(-1 - r.Intn(90))}
 		}
 		return &item{kind: "str", s: "n" + string(rune('a'+r.Intn(3)))}
 	case reflect.Ptr:
-		return randItem(r, t.Elem(), nilProb)
+		return randItem(r, t.Elem(), sub(func() reflect.Value { return cur.Elem() }), nilProb)
 	case reflect.Slice:
 		n := r.Intn(4)
 		it := &item{kind: "arr", arr: []*item{}}
+		if cur.IsValid() && r.Chance(1, 2) {
+			n = cur.Len() + r.Intn(3) // reach the element at index len (and beyond)
+		}
 		for i := 0; i < n; i++ {
-			it.arr = append(it.arr, randItem(r, t.Elem(), nilProb))
+			ii := i
+			it.arr = append(it.arr, randItem(r, t.Elem(), sub(func() reflect.Value { return cur.Index(ii) }), nilProb))
 		}
 		return it
 	case reflect.Map:
@@ -332,7 +420,8 @@ func randItem(r *vh.Rng, t reflect.Type, nilProb int) *item {
 		for _, k := range []string{"a", "b", "c", "d"} {
 			if r.Chance(2, 5) {
 				it.keys = append(it.keys, k)
-				it.vals = append(it.vals, randItem(r, t.Elem(), nilProb))
+				kk := k
+				it.vals = append(it.vals, randItem(r, t.Elem(), sub(func() reflect.Value { return cur.MapIndex(reflect.ValueOf(kk)) }), nilProb))
 			}
 		}
 		return it
@@ -342,7 +431,8 @@ func randItem(r *vh.Rng, t reflect.Type, nilProb int) *item {
 			it := &item{kind: "arr", arr: []*item{}}
 			for i := 0; i < n; i++ {
 				if i < t.NumField() {
-					it.arr = append(it.arr, randItem(r, t.Field(i).Type, nilProb))
+					ii := i
+					it.arr = append(it.arr, randItem(r, t.Field(i).Type, sub(func() reflect.Value { return cur.Field(ii) }), nilProb))
 				} else {
 					it.arr = append(it.arr, &item{kind: "int", z: 1})
 				}
@@ -358,7 +448,8 @@ func randItem(r *vh.Rng, t reflect.Type, nilProb int) *item {
 			}
 			if r.Chance(1, 2) {
 				it.keys = append(it.keys, t.Field(j).Name)
-				it.vals = append(it.vals, randItem(r, t.Field(j).Type, nilProb))
+				jj := j
+				it.vals = append(it.vals, randItem(r, t.Field(j).Type, sub(func() reflect.Value { return cur.Field(jj) }), nilProb))
 			}
 		}
 		if r.Chance(1, 5) {
@@ -414,6 +505,16 @@ func merge(c *mergeCtx, d reflect.Value, it *item) {
 		}
 		merge(c, d.Elem(), it)
 	case reflect.Interface:
+		if !d.IsNil() && !c.ifaceReset && d.Elem().Kind() == reflect.Struct {
+			// the held value is the destination: what the stream does not mention stays
+			nv := reflect.New(d.Elem().Type()).Elem()
+			nv.Set(deepCopy(d.Elem()))
+			merge(c, nv, it)
+			if !c.err {
+				d.Set(nv)
+			}
+			return
+		}
 		if !d.IsNil() && !c.ifaceReset {
 			nv := reflect.New(d.Elem().Type()).Elem()
 			scalarInto(c, nv, it)
@@ -566,6 +667,81 @@ func pathClass(t reflect.Type, fast bool) string {
 	return "reflection"
 }
 
+// bytesStream: the encoder's nil / zero-length distinction for []byte (struct field, map value,
+// slice element) must survive decoding, from a []byte and through an io.Reader alike.
+type bytesBox struct {
+	B []byte
+	M map[string][]byte
+	L [][]byte
+}
+
+func bytesStream(r *vh.Rng, n int, sum *vh.Summary) {
+	pick := func() []byte {
+		switch r.Intn(3) {
+		case 0:
+			return nil
+		case 1:
+			return []byte{}
+		}
+		return r.Bytes(1 + r.Intn(3))
+	}
+	for i := 0; i < n; i++ {
+		format := vh.Formats[r.Intn(len(vh.Formats))]
+		src := bytesBox{B: pick(), M: map[string][]byte{"a": pick(), "b": pick()}, L: [][]byte{pick(), pick(), pick()}}
+		mk := func() *bytesBox {
+			if r.Bool() {
+				return &bytesBox{}
+			}
+			return &bytesBox{B: []byte{9, 9}, M: map[string][]byte{"a": {8}, "c": {7}}, L: [][]byte{{6}, nil}}
+		}
+		st := *r
+		d0 := mk()
+		*r = st
+		d1 := mk()
+		*r = st
+		d2 := mk()
+		rbs := r.PickInt(0, 0, 8, 64)
+		h := vh.NewHandle(format, vh.Opts{"ReaderBufferSize": rbs, "Canonical": true})
+		var bs []byte
+		if err := codec.NewEncoderBytes(&bs, h).Encode(&src); err != nil {
+			continue
+		}
+		e0 := codec.NewDecoderBytes(bs, h).Decode(d0)
+		e1 := codec.NewDecoder(plainReader{bytes.NewReader(bs)}, h).Decode(d1)
+		e2 := codec.NewDecoder(bytes.NewReader(bs), h).Decode(d2)
+		cj := map[string]interface{}{"format": format, "stream": vh.Hex(bs), "ReaderBufferSize": rbs, "value": fmt.Sprintf("%#v", src), "seed_index": i}
+		// what the documented rules give: nil resets to nil, a zero-length value stays non-nil, "c" stays
+		want := &bytesBox{B: src.B, M: map[string][]byte{"a": src.M["a"], "b": src.M["b"]}, L: src.L}
+		if c, ok := d0.M["c"]; ok && e0 == nil {
+			want.M["c"] = c
+		}
+		shape := func(b []byte) string {
+			switch {
+			case b == nil:
+				return "nil"
+			case len(b) == 0:
+				return "empty"
+			}
+			return "data"
+		}
+		cls := fmt.Sprintf("bytes:%s/%s/%s", shape(src.B), shape(src.M["a"]), shape(src.L[0]))
+		if e0 != nil || e1 != nil || e2 != nil {
+			sum.FailC("bytes", "bytes:error", "decoding a struct of byte strings failed", cj)
+		} else {
+			wv := reflect.ValueOf(want).Elem()
+			if !vh.DeepEq(reflect.ValueOf(d0).Elem(), wv, vh.EqOpts{}) {
+				cj["got"] = fmt.Sprintf("%#v", *d0)
+				sum.FailC("bytes", "bytes:nil-vs-empty:from-bytes", "nil / zero-length []byte distinction not preserved decoding from []byte", cj)
+			}
+			if !vh.DeepEq(reflect.ValueOf(d1).Elem(), wv, vh.EqOpts{}) || !vh.DeepEq(reflect.ValueOf(d2).Elem(), wv, vh.EqOpts{}) {
+				cj["got"] = fmt.Sprintf("%#v / %#v", *d1, *d2)
+				sum.FailC("bytes", "bytes:nil-vs-empty:from-io.Reader", "nil / zero-length []byte distinction not preserved decoding through an io.Reader", cj)
+			}
+		}
+		sum.Count("bytes."+format, cls+"/"+format+fmt.Sprint(rbs))
+	}
+}
+
 func main() {
 	n := flag.Int("n", 1500, "cases")
 	cases := flag.String("cases", "/verif/build/c19/cases", "directory for the model case files")
@@ -580,17 +756,9 @@ func main() {
 	cv := vh.NewCases(*cases, casesHeader, "case", "mismatches", 60)
 	for i := 0; i < *n; i++ {
 		t := randType(r, r.Intn(4))
-		if t.Kind() == reflect.Interface {
-			t = reflect.SliceOf(tIface)
-		}
 		format := vh.Formats[r.Intn(len(vh.Formats))]
 		o := vh.Opts{"MapValueReset": r.Chance(1, 3), "SliceElementReset": r.Chance(1, 3), "InterfaceReset": r.Chance(1, 3), "DeleteOnNilMapValue": r.Chance(1, 4), "SignedInteger": true, "WriteExt": true, "RawToString": true}
 		h := vh.NewHandle(format, o)
-		it := randItem(r, t, 5)
-		var bs []byte
-		if err := codec.NewEncoderBytes(&bs, h).Encode(it.generic()); err != nil {
-			continue
-		}
 		vr := r.Fork()
 		st := *vr
 		d0 := reflect.New(t).Elem()
@@ -598,15 +766,32 @@ func main() {
 		st2 := st
 		d1 := reflect.New(t).Elem()
 		fill(&st2, d1, 0)
+		it := randItem(r, t, d0, 5)
+		var bs []byte
+		if err := codec.NewEncoderBytes(&bs, h).Encode(it.generic()); err != nil {
+			continue
+		}
 		before := coqVal(d0)
-		err1 := codec.NewDecoderBytes(bs, h).Decode(d0.Addr().Interface())
+		// the bytes come from a []byte or through an io.Reader (buffered or not)
+		src := r.Intn(3)
+		newDec := func() *codec.Decoder {
+			if src == 0 {
+				return codec.NewDecoderBytes(bs, h)
+			}
+			return codec.NewDecoder(plainReader{bytes.NewReader(bs)}, h)
+		}
+		if src == 2 {
+			o["ReaderBufferSize"] = 16
+			h = vh.NewHandle(format, o)
+		}
+		err1 := newDec().Decode(d0.Addr().Interface())
 		obs := "None"
 		twice := "None"
 		idemOK := true
 		if err1 == nil {
 			obs = "(Some " + coqVal(d0) + ")"
 			snap := deepCopy(d0)
-			if err2 := codec.NewDecoderBytes(bs, h).Decode(d0.Addr().Interface()); err2 == nil {
+			if err2 := newDec().Decode(d0.Addr().Interface()); err2 == nil {
 				twice = "(Some " + coqVal(d0) + ")"
 				idemOK = vh.DeepEq(snap, d0, vh.EqOpts{})
 			} else {
@@ -619,7 +804,7 @@ func main() {
 		if ctx.err {
 			continue // ill-typed stream for this destination: whether a driver is lenient (json and cbor read numbers into strings) is C01/C07 business
 		}
-		cj := map[string]interface{}{"format": format, "type": t.String(), "opts": o.String(), "stream": vh.Hex(bs), "item": it.coq(), "before": before, "build": build, "seed_index": i}
+		cj := map[string]interface{}{"format": format, "type": t.String(), "opts": o.String(), "stream": vh.Hex(bs), "item": it.coq(), "before": before, "build": build, "source": []string{"bytes", "io.Reader", "io.Reader+buffer"}[src], "seed_index": i}
 		switch {
 		case ctx.err != (err1 != nil):
 			cls := "merge:error-differs"
@@ -662,5 +847,6 @@ func main() {
 		}
 	}
 	cv.Close()
+	bytesStream(r.Fork(), *n/4, sum)
 	sum.Print()
 }
